@@ -252,6 +252,27 @@ def generate(ctx):
             cases.append(mk_case(big, chunks))
             metas.append(Meta(name="corrupt", payload=None, tokens=None, actual=None, native=False, cfg=dict(big),
                               maxchunk=max(len(c) for c in chunks), framing="?", chunking=cname, wirebody=bytes(s), complete=True))
+    # 4a'. data that only LOOKS like a gzip member: magic + method + every header-flag combination the restart probe knows (FTEXT, FHCRC, FEXTRA,
+    #      FNAME, FCOMMENT, reserved bits), the optional header fields present / truncated, then plain text that no inflate attempt accepts:
+    #      everything must come out verbatim (pass-through), whatever the chunking
+    texts = [b"plain text, not deflate data at all\r\n" * 3, b"\xff\xfe\xfd not compressed", b"A"]
+    for flg in (0x00, 0x01, 0x02, 0x04, 0x08, 0x10, 0x0c, 0x18, 0x1f, 0x20, 0xe0, 0xff):
+        h = b"\x1f\x8b\x08" + bytes([flg]) + b"\x00\x00\x00\x00\x00\x03"
+        if flg & 4:
+            h += b"\x03\x00abc"
+        if flg & 8:
+            h += b"name\x00"
+        if flg & 16:
+            h += b"comment\x00"
+        if flg & 2:
+            h += b"\x12\x34"
+        for body in (h + texts[0], h + texts[1], h[:r.randint(3, len(h))], h + texts[2]):
+            for tok in (b"gzip", b"deflate", b"x-gzip", b"gzip, gzip"):
+                head, framed = frame(body, r.choice(["cl", "close"]), tok, r)
+                for cname, chunks in chunkings(head, framed, r, single_cut_limit=24 if th else 0, n_random=1, one_byte_limit=200):
+                    cases.append(mk_case(big, chunks))
+                    metas.append(Meta(name="gzip-looking", payload=None, tokens=None, actual=None, native=False, cfg=dict(big),
+                                      maxchunk=max(len(c) for c in chunks), framing="?", chunking=cname, wirebody=body, complete=True))
     # 4b. output that ends near a multiple of the output buffer (F21: the tail stays inside the decoder when the last input byte
     #     is consumed while the buffer is full), every format, whole and cut
     for base in (8192, 16384):
